@@ -37,6 +37,7 @@ BUDGET_S = {"quick": 900, "thorough": 3000}
 
 def shards(tier, seed):
     L = S.max_len(tier)
+    LIFE = [{"lifecycle": [n]} for n in ['ErrorRate', 'PrefixErrorRates', 'MinimumErrorRateLoss']]
     out = [{"kind": "pairs", "R": R, "H": H} for R in range(L + 1) for H in range(L + 1)]
     out += [{"kind": "mer", "part": p} for p in range(16)]
     out += [{"kind": "large", "dims": d, "cost": c} for d in ([63, 60, 90], [127, 120, 40])
@@ -44,7 +45,7 @@ def shards(tier, seed):
     out += [{"kind": "large", "dims": [31, 30, 40], "cost": (1.0, 2.0, 3.0), "id_offset": S.BIG_ID},
             {"kind": "large", "dims": [31, 30, 40], "cost": (1, 1, 1.5), "jit": True},
             {"kind": "large", "dims": [9, 11, 17], "cost": (1.0, 1.0, 1.0), "jit": True}]
-    return out
+    return LIFE + out
 
 
 def _check_batch(ctx, pairs, ref, hyp, eos, include_eos, cost, tier, tag, modules):
@@ -382,6 +383,9 @@ def _large(ctx, R, H, N, cost, seed, id_offset=0, jit=False):
 
 def run_shard(spec, tier, seed):
     ctx = Ctx()
+    if "lifecycle" in spec:
+        S.lifecycle_pass(ctx, spec["lifecycle"], seed)
+        return ctx
     if spec["kind"] == "large":
         for gs in S.GLOBAL_STATES:  # the same instance under every global torch state: results must not change
             sub = Ctx()
@@ -426,6 +430,9 @@ def run_shard(spec, tier, seed):
 
 def replay(case):
     ctx = Ctx()
+    if case.get("kind") == "lifecycle":
+        S.lifecycle_pass(ctx, [case["module"]], case.get("seed", 0))
+        return ctx
     if case["kind"] == "large":
         _large(ctx, case["R"], case["H"], case["N"], tuple(case["cost"]), case["seed"], case.get("id_offset", 0),
                case.get("jit", False))
